@@ -114,7 +114,7 @@ def check_entry(rep, facts, label, entry, counters):
                 neg = not neg
                 x = ir.peel(x[2])
             # "is a record in flight?" = zero test over the remaining content and padding lengths of the header
-            zt = common.zero_test(de) if de is not None else None
+            zt = common.zero_test(de, n.term.get("dty")) if de is not None else None
             if zt is not None:
                 val, c0, other = zt
                 names = {y[2] for y in ir.walk(val) if y[0] == 'field'}
@@ -237,6 +237,28 @@ def check_writer_body(rep, facts):
                         return True
             f = f.parent
         return False
+    # ... or, equivalently, on a path on which the lock slot was just seen to be None (`match this.lock { None => .. }`)
+    def eff_none(k, m, lab):
+        gens, kills = set(), set()
+        if k.term["k"] == "switch" and isinstance(lab, tuple):
+            de = ev.switch_expr(k)
+            if de is not None and de[0] == 'discr' and lock_field(de[1]):
+                if lab == ('case', 0) or (lab[0] == 'otherwise' and 1 in lab[1] and 0 not in lab[1]):
+                    gens.add("LOCK_NONE")
+        for (pl, val, s) in field_writes(g, k):
+            if pl[2] == 'lock':
+                kills.add("LOCK_NONE")
+        if k.term["k"] == "call" and k.term["args"]:
+            nm_ = g.callee(k) or ""
+            if nm_.startswith("std::option::Option::") and nm_.split("::")[-1] in ("insert", "get_or_insert_with", "get_or_insert", "replace", "take") \
+                    and lock_field(g.arg(k, 0)):
+                kills.add("LOCK_NONE")
+        return gens, kills
+    m_none = common.must_dataflow(g, frozenset(), eff_none)
+    closure_init = in_lock_init
+
+    def in_lock_init(n):     # noqa: F811  (either form)
+        return closure_init(n) or "LOCK_NONE" in m_none.get(n.key, frozenset())
     rep.floor("R10.3", "set_lengths calls in poll_write", len(starts), 1)
     for n in starts:
         a1 = ir.peel(g.arg(n, 1))
